@@ -165,11 +165,27 @@ package percolator
 //@   ensures [at-most-one-lock-lookup] lockLookups <= old(lockLookups) + 1 && lockLookups >= old(lockLookups) && lockDeletes <= old(lockDeletes) + 1
 //@   modifies ghost(lockLookups), ghost(lastLockFound), ghost(lastLockTs), ghost(lastLockTTL), ghost(prevLockFound), ghost(prevLockTs), ghost(prevLockTTL), ghost(lookups), ghost(lastFound), ghost(lastRollback), ghost(sawRollback), ghost(dbWrites), ghost(writeCFSets), ghost(lockDeletes), ghost(defaultDeletes), ghost(writeAfterLockDelete)
 
+// Commit is all-or-nothing per request (defect repaired: keys were validated and written one
+// by one, so a refusal on a later key - rolled back, lock missing, locked by another
+// transaction, commit timestamp expired - left the earlier keys committed): every key is
+// checked by commitCheck, which writes nothing, before commitKey writes the first record.
+//@ ghost var commitChecks uint64
+//@ func commitCheck
+//@   property C18
+//@   requires req != nil && reader != nil
+//@   ghost commitChecks = commitChecks + 1
+//@   ensures [check-writes-nothing] dbWrites == old(dbWrites) && writeCFSets == old(writeCFSets) && lockDeletes == old(lockDeletes) && defaultDeletes == old(defaultDeletes)
+//@   ensures [rollback-seen-is-refused] sawRollback && !old(sawRollback) ==> result1 != nil
+//@   ensures [acceptance-saw-no-rollback] result1 == nil ==> sawRollback == old(sawRollback)
+//@   ensures [returned-lock-is-the-transactions-own] result != nil ==> result1 == nil && result.Ts == req.StartVersion && result.MinCommitTs <= req.CommitVersion
+//@   modifies ghost(commitChecks), ghost(lockLookups), ghost(lastLockFound), ghost(lastLockTs), ghost(lastLockTTL), ghost(prevLockFound), ghost(prevLockTs), ghost(prevLockTTL), ghost(lookups), ghost(lastFound), ghost(lastRollback), ghost(sawRollback)
 //@ func Commit
 //@   property C18
 //@   requires latches == nil || len(latches.stripes) > 0
 //@   ensures [rolled-back-fails] sawRollback && !old(sawRollback) ==> result != nil
-//@   loop 1 invariant [no-rollback-seen-yet] sawRollback == old(sawRollback)
+//@   ensures [no-write-before-every-key-was-checked] req != nil && dbWrites > old(dbWrites) ==> commitChecks == old(commitChecks) + uint64(len(req.Keys))
+//@   loop 1 invariant [checking-writes-nothing] sawRollback == old(sawRollback) && dbWrites == old(dbWrites) && req != nil && commitChecks == old(commitChecks) + uint64(rangeindex + 1) && -1 <= rangeindex && rangeindex < len(req.Keys) && (guard == nil || guard.manager == nil || (forall j int :: 0 <= j && j < len(guard.slots) ==> 0 <= guard.slots[j] && guard.slots[j] < len(guard.manager.stripes)))
+//@   loop 2 invariant [all-keys-were-checked] sawRollback == old(sawRollback) && req != nil && commitChecks == old(commitChecks) + uint64(len(req.Keys)) && (guard == nil || guard.manager == nil || (forall j int :: 0 <= j && j < len(guard.slots) ==> 0 <= guard.slots[j] && guard.slots[j] < len(guard.manager.stripes)))
 
 // ---- C17 kernel: which write record a read at readTs selects ----
 // The selection callback of getWriteForRead (run by scanWrites on every write record of the
